@@ -1079,3 +1079,58 @@ def ancilla_initial_state_rule(ctx, rid):
                            '(initial_state=2 on two qubits prepares |01>|0> instead of |10>|0>)', m.rel, c.lineno)
     if n == 0:
         raise AnalysisError(f'{rid}: no simulation of a deferred circuit with an initial_state parameter found')
+
+
+def noise_before_deferral_rule(ctx, rid):
+    """final_density_matrix under classical control: the noise model acts on the circuit as written, then measurements are deferred; the simulator of the rewritten circuit adds none."""
+    repo = ctx.repo
+    ctx.rule(rid, 'noise exactly once, on the original circuit: in cirq.sim.mux.final_density_matrix the circuit given to defer_measurements comes from <circuit>.with_noise(noise), and the '
+             'simulator that runs the deferred circuit is created with noise=None on that path (noise applied after deferral would also hit the ancilla qubits that stand for classical bits and '
+             'see a different moment structure)', floor=2, style='MPT')
+    m = repo.module('cirq-core/cirq/sim/mux.py')
+    fn = m.defs.get('final_density_matrix')
+    if fn is None:
+        raise AnalysisError('final_density_matrix vanished')
+    defs = {}
+    for a_ in ast.walk(fn):
+        if isinstance(a_, ast.Assign) and len(a_.targets) == 1 and isinstance(a_.targets[0], ast.Name):
+            defs.setdefault(a_.targets[0].id, []).append(a_)
+    dcalls = [c for c in ast.walk(fn) if isinstance(c, ast.Call) and (call_name(c) or '').split('.')[-1] == 'defer_measurements' and c.args]
+    par = m.parents()
+    # the deferral whose result is simulated (assigned), not the one used only in a comparison
+    dcalls = [c for c in dcalls if isinstance(par.get(c), ast.Assign)]
+    if not dcalls:
+        raise AnalysisError('final_density_matrix: defer_measurements result is no longer assigned')
+    d = dcalls[0]
+
+    def chain_has_with_noise(e, depth=0):
+        if any(isinstance(x, ast.Call) and isinstance(x.func, ast.Attribute) and x.func.attr == 'with_noise' for x in ast.walk(e)):
+            return True
+        if depth < 4:
+            for x in ast.walk(e):
+                if isinstance(x, ast.Name):
+                    for a_ in defs.get(x.id, []):
+                        if a_.lineno < d.lineno and chain_has_with_noise(a_.value, depth + 1):
+                            return True
+        return False
+    ok1 = chain_has_with_noise(d.args[0])
+    ctx.ob(rid, 'cirq.sim.mux.final_density_matrix:noise-then-defer', ok1, '' if ok1 else
+           f'`{ast.unparse(d)[:80]}` defers the measurements of a circuit that has not been through with_noise: the noise is either lost or added to the rewritten circuit', m.rel, d.lineno)
+    # the guard of the deferral branch
+    node, flag = d, None
+    while node in par:
+        p = par[node]
+        if isinstance(p, ast.If) and any(node is s or any(node is y for y in ast.walk(s)) for s in p.body):
+            flag = p.test
+            break
+        node = p
+    sims = [c for c in ast.walk(fn) if isinstance(c, ast.Call) and (call_name(c) or '').split('.')[-1] == 'DensityMatrixSimulator']
+    if not sims or flag is None:
+        raise AnalysisError('final_density_matrix: DensityMatrixSimulator construction / deferral guard not found')
+    for k, c in enumerate(sims, 1):
+        nz = next((kw.value for kw in c.keywords if kw.arg == 'noise'), None)
+        ok2 = isinstance(nz, ast.IfExp) and ast.unparse(nz.test) == ast.unparse(flag) and isinstance(nz.body, ast.Constant) and nz.body.value is None
+        ok2 = ok2 or (isinstance(nz, ast.Constant) and nz.value is None)
+        ctx.ob(rid, f'cirq.sim.mux.final_density_matrix:simulator-noise#{k}', ok2, '' if ok2 else
+               f'the simulator is created with noise={ast.unparse(nz) if nz is not None else "<default>"}: on the `{ast.unparse(flag)}` path the circuit already contains the noise '
+               '(or should), so the model would be applied to the deferred circuit - ancillas included', m.rel, c.lineno)
